@@ -5,10 +5,164 @@ use proptest::collection::vec;
 use proptest::prelude::*;
 use proptest::sample::select;
 
+// ---------------------------------------------------------------------------------------------
+// a dictionary harvested from the sources under test (as fuzzers do): every integer, character and
+// short string literal of simple-dns/src and simple-mdns/src, with its neighbours v-1 / v+1. A
+// guard on a magic value (an option code, a type code, a threshold, a label) puts that value into
+// the tree, and thereby into the generators. Pure function of the working tree.
+
+pub struct Dict {
+    pub ints: Vec<u64>,
+    pub strs: Vec<Vec<u8>>,
+}
+
+fn scan_source(text: &str, ints: &mut std::collections::BTreeSet<u64>, strs: &mut std::collections::BTreeSet<Vec<u8>>) {
+    let b = text.as_bytes();
+    let mut i = 0;
+    while i < b.len() {
+        let c = b[i];
+        // line comments (doc comments included) are skipped: prose is not code
+        if c == b'/' && i + 1 < b.len() && b[i + 1] == b'/' {
+            while i < b.len() && b[i] != b'\n' {
+                i += 1;
+            }
+            continue;
+        }
+        if c == b'"' {
+            let mut j = i + 1;
+            let mut lit = Vec::new();
+            while j < b.len() && b[j] != b'"' {
+                if b[j] == b'\\' && j + 1 < b.len() {
+                    j += 1;
+                    match b[j] {
+                        b'n' => lit.push(b'\n'),
+                        b'0' => lit.push(0),
+                        b'x' if j + 2 < b.len() => {
+                            if let Ok(v) = u8::from_str_radix(&text[j + 1..j + 3], 16) {
+                                lit.push(v);
+                            }
+                            j += 2;
+                        }
+                        x => lit.push(x),
+                    }
+                } else {
+                    lit.push(b[j]);
+                }
+                j += 1;
+            }
+            if !lit.is_empty() && lit.len() <= 24 && !lit.contains(&b' ') && !lit.contains(&b'{') {
+                strs.insert(lit);
+            }
+            i = j + 1;
+            continue;
+        }
+        if c == b'\'' && i + 2 < b.len() {
+            // 'x' or '\x' (lifetimes like 'a have no closing quote right after)
+            if b[i + 2] == b'\'' && b[i + 1] != b'\\' {
+                ints.insert(b[i + 1] as u64);
+                i += 3;
+                continue;
+            }
+        }
+        if c.is_ascii_digit() && (i == 0 || !(b[i - 1].is_ascii_alphanumeric() || b[i - 1] == b'_' || b[i - 1] == b'.')) {
+            let mut j = i;
+            while j < b.len() && (b[j].is_ascii_alphanumeric() || b[j] == b'_') {
+                j += 1;
+            }
+            let tok: String = text[i..j].chars().filter(|c| *c != '_').collect();
+            let tok = tok.trim_end_matches(|c: char| !c.is_ascii_hexdigit() || false).to_string();
+            let mut t = tok.as_str();
+            for suf in ["usize", "isize", "u128", "u64", "u32", "u16", "u8", "i128", "i64", "i32", "i16", "i8"] {
+                if let Some(x) = t.strip_suffix(suf) {
+                    t = x;
+                }
+            }
+            let v = if let Some(h) = t.strip_prefix("0x") {
+                u64::from_str_radix(h, 16).ok()
+            } else if let Some(bn) = t.strip_prefix("0b") {
+                u64::from_str_radix(bn, 2).ok()
+            } else if let Some(o) = t.strip_prefix("0o") {
+                u64::from_str_radix(o, 8).ok()
+            } else {
+                t.parse::<u64>().ok()
+            };
+            if let Some(v) = v {
+                ints.insert(v);
+            }
+            i = j;
+            continue;
+        }
+        i += 1;
+    }
+}
+
+pub fn dict() -> &'static Dict {
+    static D: std::sync::OnceLock<Dict> = std::sync::OnceLock::new();
+    D.get_or_init(|| {
+        // the tree the harness was built against: bin/check points harness/.repo at it
+        let repo = std::env::var("VERIF_REPO").unwrap_or_else(|_| {
+            let link = concat!(env!("CARGO_MANIFEST_DIR"), "/.repo");
+            if std::path::Path::new(link).join("simple-dns/src").is_dir() {
+                link.to_string()
+            } else {
+                "/repo".into()
+            }
+        });
+        let mut ints = std::collections::BTreeSet::new();
+        let mut strs = std::collections::BTreeSet::new();
+        let mut stack = vec![std::path::PathBuf::from(&repo).join("simple-dns/src"), std::path::PathBuf::from(&repo).join("simple-mdns/src")];
+        while let Some(d) = stack.pop() {
+            let Ok(rd) = std::fs::read_dir(&d) else { continue };
+            let mut entries: Vec<_> = rd.flatten().map(|e| e.path()).collect();
+            entries.sort();
+            for p in entries {
+                if p.is_dir() {
+                    stack.push(p);
+                } else if p.extension().map(|x| x == "rs").unwrap_or(false) {
+                    if let Ok(text) = std::fs::read_to_string(&p) {
+                        // the unit tests at the bottom of each file are not the code under test
+                        let code = text.split("#[cfg(test)]").next().unwrap_or("");
+                        scan_source(code, &mut ints, &mut strs);
+                    }
+                }
+            }
+        }
+        // derived values: complements of masks
+        let raw: Vec<u64> = ints.iter().copied().collect();
+        for &v in &raw {
+            if (0x80..=0xff).contains(&v) {
+                ints.insert(0xff - v);
+            }
+            if (0x100..=0xffff).contains(&v) {
+                ints.insert(0xffff - v);
+            }
+        }
+        let mut all = std::collections::BTreeSet::new();
+        for v in ints {
+            all.insert(v);
+            all.insert(v.wrapping_add(1));
+            if v > 0 {
+                all.insert(v - 1);
+            }
+        }
+        Dict { ints: all.into_iter().collect(), strs: strs.into_iter().collect() }
+    })
+}
+
+fn dict_ints(max: u64) -> Vec<u64> {
+    let v: Vec<u64> = dict().ints.iter().copied().filter(|x| *x <= max).collect();
+    if v.is_empty() {
+        vec![0]
+    } else {
+        v
+    }
+}
+
 pub fn u8b() -> BoxedStrategy<u8> {
     prop_oneof![
         3 => select(vec![0u8, 1, 0x7f, 0x80, 0xfe, 0xff]),
         2 => any::<u8>(),
+        1 => select(dict_ints(255)).prop_map(|v| v as u8),
     ]
     .boxed()
 }
@@ -16,6 +170,7 @@ pub fn u16b() -> BoxedStrategy<u16> {
     prop_oneof![
         3 => select(vec![0u16, 1, 0xff, 0x100, 0x7fff, 0x8000, 0xfffe, 0xffff, 0x1234]),
         2 => any::<u16>(),
+        2 => select(dict_ints(65535)).prop_map(|v| v as u16),
     ]
     .boxed()
 }
@@ -23,8 +178,49 @@ pub fn u32b() -> BoxedStrategy<u32> {
     prop_oneof![
         3 => select(vec![0u32, 1, 0xffff, 0x10000, 0x7fff_ffff, 0x8000_0000, 0xffff_fffe, 0xffff_ffff, 0x0102_0304]),
         2 => any::<u32>(),
+        1 => select(dict_ints(u32::MAX as u64)).prop_map(|v| v as u32),
     ]
     .boxed()
+}
+
+/// a fixed list of sizes merged with the dictionary values up to `max`
+pub fn sizes_u16(base: &[u16], max: u16) -> Vec<u16> {
+    let mut v: Vec<u16> = base.to_vec();
+    v.extend(dict_ints(max as u64).into_iter().map(|x| x as u16));
+    v.sort();
+    v.dedup();
+    v
+}
+
+/// small sizes worth trying as lengths / counts: the dictionary values up to `max`
+pub fn dict_sizes(max: u64) -> Vec<usize> {
+    dict_ints(max).into_iter().map(|v| v as usize).collect()
+}
+
+/// strings of the sources usable as a label (1..=63 bytes), split at dots
+pub fn dict_labels() -> Vec<Bytes> {
+    let mut v: Vec<Bytes> = Vec::new();
+    for s in &dict().strs {
+        for piece in s.split(|c| *c == b'.') {
+            if !piece.is_empty() && piece.len() <= 63 {
+                v.push(Bytes(piece.to_vec()));
+            }
+        }
+    }
+    v.sort();
+    v.dedup();
+    if v.is_empty() {
+        v.push(Bytes(b"local".to_vec()));
+    }
+    v
+}
+
+pub fn dict_strings() -> Vec<Bytes> {
+    let mut v: Vec<Bytes> = dict().strs.iter().map(|s| Bytes(s.clone())).collect();
+    if v.is_empty() {
+        v.push(Bytes(b"x".to_vec()));
+    }
+    v
 }
 
 pub fn bytes(max: usize) -> BoxedStrategy<Bytes> {
@@ -41,6 +237,7 @@ pub fn tail() -> BoxedStrategy<Bytes> {
         1 => Just(Bytes(vec![])),
         6 => bytes(24),
         1 => bytes(600),
+        1 => (select(dict_sizes(700)), any::<u8>()).prop_map(|(n, b)| Bytes(vec![b; n])),
     ]
     .boxed()
 }
@@ -58,6 +255,7 @@ pub fn label() -> BoxedStrategy<Bytes> {
         ])
         .prop_map(|s| Bytes(s.to_vec())),
         1 => vec(any::<u8>(), 1..=8).prop_map(Bytes),
+        2 => select(dict_labels()),
         1 => vec(any::<u8>(), 60..=63).prop_map(Bytes),
         1 => (select(vec![b'a', b'z', 0xffu8, 0u8, b'.']), 62usize..=63).prop_map(|(c, n)| Bytes(vec![c; n])),
     ]
@@ -115,6 +313,8 @@ pub fn charstr() -> BoxedStrategy<Bytes> {
         1 => Just(Bytes(vec![])),
         6 => bytes(20),
         1 => vec(any::<u8>(), 250..=255).prop_map(Bytes),
+        1 => select(dict_strings()),
+        1 => (select(dict_strings()), select(dict_strings())).prop_map(|(k, v)| Bytes([k.0, b"=".to_vec(), v.0].concat())),
         1 => select(vec![&b"key=value"[..], b"k=", b"k", b"=v", b"\xff\xfe=\xc0", b"a;b=c", b"\x00", b"sep=\"", b"k=\"\"", b"\"", b"k=\"v\"", b"\"k\"=v", b"k='"]).prop_map(|s| Bytes(s.to_vec())),
     ]
     .boxed()
@@ -202,6 +402,7 @@ pub fn untyped_code() -> BoxedStrategy<u16> {
     prop_oneof![
         3 => select(UNKNOWN_CODES.to_vec()),
         2 => any::<u16>().prop_map(|c| if is_typed(c) { c.wrapping_add(7000) } else { c }),
+        2 => select(dict_ints(65535)).prop_map(|c| if is_typed(c as u16) { (c as u16).wrapping_add(7000) } else { c as u16 }),
     ]
     .boxed()
 }
@@ -263,7 +464,7 @@ pub fn aquestion_n(names: BoxedStrategy<AName>) -> BoxedStrategy<AQuestion> {
 
 /// EDNS option codes: the assigned ones (NSID 3, ECS 8, EXPIRE 9, COOKIE 10, KEEPALIVE 11, PADDING 12, EDE 15 ...) and any value
 pub fn opt_code() -> BoxedStrategy<u16> {
-    prop_oneof![2 => select(vec![1u16, 2, 3, 5, 6, 7, 8, 9, 10, 11, 12, 13, 14, 15, 16, 17, 18, 19, 20, 26946, 65001, 65534]), 2 => u16b()].boxed()
+    prop_oneof![2 => select(vec![1u16, 2, 3, 5, 6, 7, 8, 9, 10, 11, 12, 13, 14, 15, 16, 17, 18, 19, 20, 26946, 65001, 65534]), 3 => u16b()].boxed()
 }
 
 /// option payloads: the lengths option-specific validation would care about, and the usual tails
@@ -391,6 +592,11 @@ pub fn share_name() -> BoxedStrategy<AName> {
                 AName(v.into_iter().map(|s| Bytes(s.as_bytes().to_vec())).collect())
             }),
         1 => label().prop_map(|l| AName(vec![l, Bytes(b"example".to_vec()), Bytes(b"com".to_vec())])),
+        1 => (vec(select(vec!["a", "b"]), 0..=2), select(dict_labels())).prop_map(|(lead, last)| {
+            let mut v: Vec<Bytes> = lead.into_iter().map(|s| Bytes(s.as_bytes().to_vec())).collect();
+            v.push(last);
+            AName(v)
+        }),
         1 => long_name(),
     ]
     .boxed()
